@@ -917,7 +917,8 @@ def run(ctx):
         'de-duplicated on (implementation state, reference state, remaining budget). module_status: the same on a real '
         f'HasStates+Drivable module with operations {list(MODULE_OPS)} to depth {b["mdepth"]}, <= {b["mbudget"]} entries. '
         'evaluations = executions (each replays a whole history); distinct_nontrivial = executions whose last operation '
-        'did more than retry (finish, transition, interrupt, cleanup, failure); states = distinct canonical states; '
+        'did more than retry (finish, transition, interrupt, cleanup, failure); states = distinct canonical states per shard '
+        '(profile x maxloops x first operation), summed; '
         'transitions = operations + scripted function calls executed')
     ctx.coverage.update(bound_completed=f'depth {b["depth"]}, <= {b["budget"]} non-default script entries '
                         f'(module: depth {b["mdepth"]}, <= {b["mbudget"]})',
